@@ -11,7 +11,7 @@ RULE = ("rasters 2x2..12x12 with random target layouts plus targets planted exac
         "3.7, 5} x cell, >= raster extent, inf; cx != cy; EUCLIDEAN/MANHATTAN/GREAT_CIRCLE; proximity, allocation, direction; "
         "schedulers synchronous and threads x 1/2/4/16; exact comparison with the NumPy result; non-trivial = distinct (layout, "
         "chunking, max_distance, geometry, function) with >= 2 blocks and a target whose nearest cells lie in another block")
-BUDGET = {'quick': 150, 'thorough': 1200}
+BUDGET = {'quick': 300, 'thorough': 1200}
 MODES = {'quick': [('J', 8), ('I', 8)], 'thorough': [('J', 8), ('I', 8)]}
 FLOORS = {'quick': {'dask_equals_numpy': 350, 'multi_block': 250, 'cx!=cy': 100, 'target_on_halo_edge': 60, 'single_block_fallback': 40,
                     'scheduler.threads': 100, 'stays_dask': 400, 'fraction_of_a_cell': 30, 'zero_as_explicit_target': 60},
